@@ -187,7 +187,8 @@ theorem normalize_of_stable (q : Pairs) (h : Stable q) : PairsEq (normalize q) q
 /-! ### the option loop of the parser on a line built from options -/
 
 /-- The entry the parser makes of an option (with its one hard coded special case). -/
-def pkv (o : OptW) : Str × Str := fixSyn o.key o.value
+def pkv (o : OptW) : Str × Str :=
+  fixSyn o.key (if o.neg.isNeg then ['!'] else []) (joinWith [' '] o.args)
 
 def pairsOf (l : List OptW) (acc : Pairs) : Pairs := l.foldl (fun acc o => setA (pkv o).1 (pkv o).2 acc) acc
 
